@@ -17,8 +17,9 @@ open Paroxy.Cli
 
 /-! ## collect -/
 
-/-- `collect` runs iff DIRECTORY is a directory; then the keyword arguments are the options, unchanged. -/
-theorem C18_collect_wiring (a : CollectArgs) (w : World) :
+/-- `collect` runs iff DIRECTORY is a directory; then the keyword arguments are the options, unchanged.
+(This restates `collectPlan`: an `example`, not an obligation — the wiring is tied by the harness.) -/
+example (a : CollectArgs) (w : World) :
     (w.isDir (PPath.parse a.directory) = false → collectPlan a w = .exit .noDirectory) ∧
     (w.isDir (PPath.parse a.directory) = true → ∃ p, collectPlan a w = .run p ∧
       p.directory = PPath.parse a.directory ∧ p.ignoreTimestamps = a.noTimestamp ∧
@@ -43,6 +44,54 @@ theorem C18_taxonomy_precedence (a : CollectArgs) (w : World) (p : CollectPlan)
     · cases h; rfl
   simp only [hp]
   exact taxonomyFor_spec w _ _
+
+/-- **C18 (domain of the documented taxonomy rule).** The sibling taxonomy the code looks for is
+`parent(DIRECTORY)/taxonomy.tsv` with the LEXICAL parent of the path as typed. This is the documented
+`DIRECTORY/../taxonomy.tsv` exactly when the last component of DIRECTORY is a real name: neither empty
+(`.`, `./`, the empty string) nor `..` (`..`, `a/..`). Outside this domain the code deviates from the
+documentation — finding F35, notes/findings/C18-collect-dot.md. -/
+theorem C18_taxonomy_documented (d : PPath) (cwd : List Str) (h1 : d.name ≠ []) (h2 : d.name ≠ ['.', '.']) :
+    (d.parent.child "taxonomy.tsv".toList).resolve cwd =
+      ((d.child ['.', '.']).child "taxonomy.tsv".toList).resolve cwd ∧
+    d.parent.resolve cwd = (d.child ['.', '.']).resolve cwd := by
+  obtain ⟨abs, parts⟩ := d
+  have hne : parts ≠ [] := by
+    intro h; subst h; simp [PPath.name] at h1
+  have hsplit := List.dropLast_concat_getLast hne
+  have hlast : parts.getLast hne = PPath.name ⟨abs, parts⟩ := by
+    simp [PPath.name, List.getLast?_eq_some_getLast hne]
+  have hl : parts.getLast hne ≠ ['.', '.'] := by rw [hlast]; exact h2
+  simp only [PPath.resolve, PPath.parent, PPath.child]
+  constructor
+  · congr 1
+    cases abs
+    · simp only [Bool.false_eq_true, if_false]
+      conv => rhs; rw [← hsplit]
+      have := collapse_snoc_dotdot [] (cwd ++ parts.dropLast) (parts.getLast hne) hl ["taxonomy.tsv".toList]
+      simp only [List.append_assoc, List.cons_append, List.nil_append] at this ⊢
+      exact this.symm
+    · simp only [if_true]
+      conv => rhs; rw [← hsplit]
+      have := collapse_snoc_dotdot [] parts.dropLast (parts.getLast hne) hl ["taxonomy.tsv".toList]
+      simp only [List.append_assoc, List.cons_append, List.nil_append] at this ⊢
+      exact this.symm
+  · congr 1
+    cases abs
+    · simp only [Bool.false_eq_true, if_false]
+      conv => rhs; rw [← hsplit]
+      have := collapse_snoc_dotdot [] (cwd ++ parts.dropLast) (parts.getLast hne) hl []
+      simp only [List.append_assoc, List.cons_append, List.nil_append, List.append_nil] at this ⊢
+      exact this.symm
+    · simp only [if_true]
+      conv => rhs; rw [← hsplit]
+      have := collapse_snoc_dotdot [] parts.dropLast (parts.getLast hne) hl []
+      simp only [List.append_assoc, List.cons_append, List.nil_append, List.append_nil] at this ⊢
+      exact this.symm
+
+example : (PPath.parse "progs/sub".toList).name ≠ [] ∧ (PPath.parse "progs/sub".toList).name ≠ ['.', '.'] := by decide
+/-- outside the domain: for `.` the lexical parent is `.` itself, not `..` (finding F35) -/
+example : (PPath.parse ".".toList).parent.resolve ["w".toList, "progs".toList] ≠
+    ((PPath.parse ".".toList).child ['.', '.']).resolve ["w".toList, "progs".toList] := by decide
 
 theorem collect_out (a : CollectArgs) (w : World) (p : CollectPlan) (h : collectPlan a w = .run p) :
     p.out = collectOut (PPath.parse a.directory) a.output := by
@@ -194,11 +243,29 @@ theorem C18_stdout_mode (a : RecArgs) (w : World) (p : RecPlan) (h : recommendPl
   rw [hm, ho]
   simp
 
+/-- Non-vacuity of the hypotheses `recommendPlan a w = .run p`: the directory shortcut with
+`-o stdout`, in a world where `progs` is a directory next to `progs_db.json` and `progs_pipe.py`. -/
+def exampleWorld : World where
+  isDir := fun p => p == PPath.parse "progs".toList
+  isFile := fun p => p == PPath.parse "progs_db.json".toList || p == PPath.parse "progs_pipe.py".toList
+  pipelineParses := fun _ => true
+  readable := fun _ => true
+  cwd := ["w".toList]
+
+def exampleArgs : RecArgs :=
+  ⟨"progs".toList, [], "zeno".toList, "stdout".toList, [], "`{name}`".toList⟩
+
+example : ∃ p, recommendPlan exampleArgs exampleWorld = .run p ∧
+    p.db = PPath.parse "progs_db.json".toList ∧ p.announcedDb = true ∧ p.pfx = "progs_".toList ∧
+    p.pipe = .file (PPath.parse "progs_pipe.py".toList) ∧ p.out = .stdout ∧ p.messagesOnStderr = true :=
+  ⟨_, rfl, by decide, by decide, by decide, by decide, by decide, by decide⟩
+
 /-! ## tag -/
 
-/-- **C18 (tag).** `tag` calls `cli_tag.main` on the file's text with: labels iff `--labels`, the
-file's parent as relative path, Markdown iff `--format` is `md`, the given taxonomy or the bundled one. -/
-theorem C18_tag (a : TagArgs) (w : World) :
+/-- `tag` calls `cli_tag.main` on the file's text with: labels iff `--labels`, the file's parent as
+relative path, Markdown iff `--format` is `md`, the given taxonomy or the bundled one.
+(This restates `tagPlan`: an `example`, not an obligation — tied by the harness.) -/
+example (a : TagArgs) (w : World) :
     (w.readable (PPath.parse a.filename) = false → tagPlan a w = .exit .unreadable) ∧
     (w.readable (PPath.parse a.filename) = true → ∃ p, tagPlan a w = .run p ∧
       p.file = PPath.parse a.filename ∧ p.labelsNotTaxa = a.labels ∧
